@@ -2,6 +2,7 @@ package main
 
 import (
 	"fmt"
+	"go/types"
 
 	"golang.org/x/tools/go/ssa"
 )
@@ -226,4 +227,66 @@ func (r *Run) killThreads() {
 	}
 	s.threads = nil
 	s.cur = nil
+}
+
+// ---- sync.Map as an association list with symbolic keys ------------------------------------------
+
+var anyType = types.NewInterfaceType(nil, nil)
+
+func (r *Run) syncMapOf(p *PtrV) *MapV {
+	if r.syncMaps == nil {
+		r.syncMaps = map[string]*MapV{}
+	}
+	k := lockKey(p)
+	m, ok := r.syncMaps[k]
+	if !ok {
+		r.nextObj++
+		m = &MapV{id: r.nextObj, typ: types.NewMap(anyType, anyType)}
+		r.syncMaps[k] = m
+	}
+	return m
+}
+
+func (e *Engine) registerSyncMap() {
+	in := e.intrinsics
+	in["(*sync.Map).Load"] = func(r *Run, fr *Frame, cc *ssa.CallCommon, a []Value) Value {
+		v, ok := r.mapLookup(r.syncMapOf(a[0].(*PtrV)), a[1], lbl("sync.Map.Load"))
+		return TupleV{v, ok}
+	}
+	in["(*sync.Map).Store"] = func(r *Run, fr *Frame, cc *ssa.CallCommon, a []Value) Value {
+		r.mapUpdate(r.syncMapOf(a[0].(*PtrV)), a[1], a[2])
+		return TupleV{}
+	}
+	in["(*sync.Map).LoadOrStore"] = func(r *Run, fr *Frame, cc *ssa.CallCommon, a []Value) Value {
+		m := r.syncMapOf(a[0].(*PtrV))
+		v, ok := r.mapLookup(m, a[1], lbl("sync.Map.LoadOrStore"))
+		if ok.IsTrue() {
+			return TupleV{v, True}
+		}
+		r.mapUpdate(m, a[1], a[2])
+		return TupleV{a[2], False}
+	}
+	in["(*sync.Map).Delete"] = func(r *Run, fr *Frame, cc *ssa.CallCommon, a []Value) Value {
+		m := r.syncMapOf(a[0].(*PtrV))
+		m.entries = append(m.entries, MapEntry{k: a[1], del: true})
+		return TupleV{}
+	}
+	in["(*sync.Map).LoadAndDelete"] = func(r *Run, fr *Frame, cc *ssa.CallCommon, a []Value) Value {
+		m := r.syncMapOf(a[0].(*PtrV))
+		v, ok := r.mapLookup(m, a[1], lbl("sync.Map.LoadAndDelete"))
+		m.entries = append(m.entries, MapEntry{k: a[1], del: true})
+		return TupleV{v, ok}
+	}
+	in["(*sync.Map).Range"] = func(r *Run, fr *Frame, cc *ssa.CallCommon, a []Value) Value {
+		m := r.syncMapOf(a[0].(*PtrV))
+		fv := a[1].(*FuncV)
+		for _, e := range r.mapLive(m) {
+			res := r.callFn(fr, fv.fn, append([]Value{e.k, copyVal(e.v)}, fv.env...), lbl("sync.Map.Range"))
+			if !r.branch(res.(*Term)) {
+				break
+			}
+		}
+		return TupleV{}
+	}
+	// uncontended mutexes outside Par: plain no-ops handled by the lock intrinsics in registerThreads
 }
